@@ -95,6 +95,21 @@ class Evaluator:
             if isinstance(inner, (tuple, list)) and t[2].isdigit():
                 return inner[int(t[2])]
             raise Stuck("field %s of %r" % (t[2], inner))
+        if k == "ref" and isinstance(t[1], tuple) and t[1][0] == "H":
+            v = self.ev(t[1][1])   # references are transparent in every interpretation used here
+            for e in t[2]:
+                if e[0] == "f" and isinstance(v, dict):
+                    v = v[e[1]]
+                elif e[0] == "cidx":
+                    i = e[1] if not e[2] else len(v) - e[1]
+                    v = v[i]
+                    v = ord(v) if isinstance(v, str) else v
+                elif e[0] == "as":
+                    if isinstance(v, Opt):
+                        v = (v.val,) if v.some else v
+                else:
+                    raise Stuck("ref path %r" % (e,))
+            return v
         if k == "len":
             return len(self.ev(t[1]))
         if k == "slice":
